@@ -377,3 +377,27 @@ def _viols_rebuild(cap, items, counts):
     list.extend(v, items)
     v.counts = counts
     return v
+
+
+def replay_by_rerun(mod, prop, path):
+    """Generic replay for artefacts whose case cannot be re-run in isolation: run the quick tier again and report whether
+    a violation with the same signature is found again (exit 1) or not (exit 0)."""
+    with open(path) as f:
+        v = json.load(f)
+    sig = v.get("sig")
+    t0 = time.time()
+    mod.run("quick")
+    rdir = os.path.join(VERIF, "replays", prop)
+    again = False
+    if os.path.isdir(rdir):
+        for n in os.listdir(rdir):
+            p = os.path.join(rdir, n)
+            if os.path.getmtime(p) >= t0 - 1:
+                try:
+                    with open(p) as f:
+                        if json.load(f).get("sig") == sig:
+                            again = True
+                except (OSError, ValueError):
+                    pass
+    print(f"[verif] replay by re-run: signature {sig!r} {'found again' if again else 'not found'}")
+    return 1 if again else 0
